@@ -35,8 +35,10 @@ func init() {
 			ModelOnlyLabels: map[string]string{"flight-in-progress-never-forgotten": sfNote},
 			ExpectReach:     []string{"end-ok", "end-failed"}, Desc: "expiry only drops stale, unreferenced, undeclared secrets at a poll, whatever the service answers (values, failures, not-found)"},
 		ch("verifHarnessC12ApplyUpdates", map[string]int{"names": 2}, map[string]int{"names": 3}, []string{"end"}, "applyUpdates with an arbitrary update set (also one computed before a handle was handed out): a name with a handle or watcher is never dropped"),
-		&HarnessSpec{Name: "verifHarnessC19HasExpired", Pkg: "client/setec", Stubs: clientStubs, Params: map[string]int{}, ExpectReach: []string{"end"},
-			Desc: "hasExpired == (undeclared and age configured and now - lastAccess > age) over all stamps"},
+		&HarnessSpec{Name: "verifHarnessC19HasExpired", Pkg: "client/setec", Stubs: clientStubs, Params: map[string]int{}, ExpectReach: []string{"end", "end-expired"},
+			Desc: "hasExpired implies (undeclared and age configured and now - lastAccess > age) over all stamps; expiry does happen"},
+		&HarnessSpec{Name: "verifHarnessC19SubSecond", Pkg: "client/setec", Stubs: clientStubs, Params: map[string]int{}, ExpectReach: []string{"end"},
+			Desc: "hasExpired with a nanosecond clock and whole-second stamps: expiry implies that the real time since the read (any instant of the stamped second) exceeds the age"},
 		&HarnessSpec{Name: "verifHarnessC19HandleStamps", Pkg: "client/setec", Stubs: clientStubs, Params: map[string]int{"names": 2}, ThoroughParams: map[string]int{"names": 3},
 			ExpectReach: []string{"end-known"}, Desc: "a handle read stamps LastAccess, returns its own installed bytes, sends no request"})
 	propRegistry = append(propRegistry, c19)
@@ -131,9 +133,9 @@ func init() {
 		ch("verifHarnessC11Refresh", map[string]int{"names": 2}, map[string]int{"names": 3}, []string{"end-ok"}, "poll keeps invariant J"))
 	propRegistry = append(propRegistry, c12)
 
-	c15 := &Property{ID: "C15", Pkgs: []string{"client/setec"}, Bounds: map[string]string{"events": "histories of 4 / 6 events (install | Get) after creation, builder may fail at every call"}}
+	c15 := &Property{ID: "C15", Pkgs: []string{"client/setec"}, Bounds: map[string]string{"events": "histories of 4 / 5 events (install | Get) after creation, builder may fail at every call"}}
 	c15.Harnesses = append(c15.Harnesses,
-		ch("verifHarnessC15Updater", map[string]int{"steps": 4}, map[string]int{"steps": 6}, []string{"end", "end-create-failed"}, "NewUpdater + bounded histories of installs and Gets with failing builders and closers"),
+		ch("verifHarnessC15Updater", map[string]int{"steps": 4}, map[string]int{"steps": 5}, []string{"end", "end-create-failed"}, "NewUpdater + bounded histories of installs and Gets with failing builders and closers"),
 		ch("verifHarnessC15TwoUpdaters", map[string]int{"steps": 4}, map[string]int{"steps": 5}, []string{"end"}, "two updaters on one secret: every install reaches both, each rebuilds only when owed"),
 		ch("verifHarnessC15Notify", map[string]int{}, nil, []string{"end"}, "notify is non-blocking and a level trigger"),
 		ch("verifHarnessC15RacingLookupUpdater", map[string]int{"names": 1}, map[string]int{"names": 2}, []string{"end"}, "an updater created by one caller while another caller's lookup of the same name is about to fetch (the secret may be rotated in between): the updater is not left behind by the second lookup"),
